@@ -56,10 +56,14 @@ func c05r1(c *Ctx) {
 					Detail: "the user-key write is reachable without " + expected, Path: s.witnessPath(pred), Expected: expected})
 			}
 		}
-		check("protected prefix", func(f Fact) bool { return !f.Lin && f.Pos && f.Atom == "call:vmcommon.IsAllowedToSaveUnderKey("+key+")" },
+		check("protected prefix", func(f Fact) bool {
+			return !f.Lin && f.Pos && f.Atom == "call:vmcommon.IsAllowedToSaveUnderKey("+key+")"
+		},
 			"IsAllowedToSaveUnderKey(<the key written>) == true")
 		check("self call", eqPred(x.caller, x.rcpt), "CallerAddr == RecipientAddr")
-		check("not a contract", func(f Fact) bool { return !f.Lin && !f.Pos && f.Atom == "call:vmcommon.IsSmartContractAddress("+x.caller+")" },
+		check("not a contract", func(f Fact) bool {
+			return !f.Lin && !f.Pos && f.Atom == "call:vmcommon.IsSmartContractAddress("+x.caller+")"
+		},
 			"IsSmartContractAddress(CallerAddr) == false")
 		// account written = the sender parameter
 		org := accountOrigin(s.Env, writtenAccount(call), 0)
